@@ -131,16 +131,50 @@ def outside_difference_logic(b, sort):
                     continue
             except IllTyped:
                 continue
-            l, r = linear_form(t[2][0]), linear_form(t[2][1])
-            if l is None or r is None:
+            # a term-level ITE stands for either branch (the atom is a difference constraint only if it is one for
+            # every choice of branches)
+            ls, rs = linear_alternatives(t[2][0]), linear_alternatives(t[2][1])
+            if ls is None or rs is None:
                 continue
-            d = dict(l)
-            for k, v in r.items():
-                d[k] = d.get(k, 0) - v
-            coefs = [v for k, v in d.items() if k is not None and v != 0]
-            if len(coefs) > 2 or any(abs(v) != 1 for v in coefs) or (len(coefs) == 2 and coefs[0] == coefs[1]):
-                return t
+            for l in ls:
+                for r in rs:
+                    d = dict(l)
+                    for k, v in r.items():
+                        d[k] = d.get(k, 0) - v
+                    coefs = [v for k, v in d.items() if k is not None and v != 0]
+                    if len(coefs) > 2 or any(abs(v) != 1 for v in coefs) or (len(coefs) == 2 and coefs[0] == coefs[1]):
+                        return t
     return None
+
+
+def linear_alternatives(t, cap=16):
+    """The linear forms a term can take when each of its top-level ITEs is resolved either way; None if some
+    alternative has no linear form (or there are too many)."""
+    if t[0] == "ITE":
+        a, b = linear_alternatives(t[2][1], cap), linear_alternatives(t[2][2], cap)
+        if a is None or b is None or len(a) + len(b) > cap:
+            return None
+        return a + b
+    if t[0] in ("PLUS", "MINUS") and any(c[0] == "ITE" for c in t[2]):
+        outs = [{}]
+        for i, c in enumerate(t[2]):
+            alts = linear_alternatives(c, cap)
+            if alts is None:
+                return None
+            sgn = -1 if (t[0] == "MINUS" and i > 0) else 1
+            nxt = []
+            for o in outs:
+                for a in alts:
+                    d = dict(o)
+                    for k, v in a.items():
+                        d[k] = d.get(k, 0) + sgn * v
+                    nxt.append(d)
+            if len(nxt) > cap:
+                return None
+            outs = nxt
+        return outs
+    f = linear_form(t)
+    return None if f is None else [f]
 
 
 def theory_lacks(theory, feats):
@@ -266,7 +300,9 @@ def difference_shaped_atoms():
         sides = [x, k0, k1, ("MINUS", (), (x, y)), ("MINUS", (), (y, x)), ("MINUS", (), (z, w)), ("MINUS", (), (y, z)),
                  ("PLUS", (), (x, k1)), ("PLUS", (), (("MINUS", (), (x, y)), k2)), ("PLUS", (), (x, y)),
                  ("MINUS", (), (("MINUS", (), (x, y)), z)), ("TIMES", (), (k2, x)), ("TIMES", (), (km, y)),
-                 ("MINUS", (), (x, x)), ("PLUS", (), (z, ("TIMES", (), (km, w)))), ("MINUS", (), (k1, x)), z]
+                 ("MINUS", (), (x, x)), ("PLUS", (), (z, ("TIMES", (), (km, w)))), ("MINUS", (), (k1, x)), z,
+                 ("ITE", (), (("SYMBOL", ("dlp", BOOL), ()), z, w)), ("ITE", (), (("SYMBOL", ("dlp", BOOL), ()), ("MINUS", (), (x, y)), ("MINUS", (), (z, w)))),
+                 ("ITE", (), (("SYMBOL", ("dlp", BOOL), ()), x, k1)), ("MINUS", (), (x, ("ITE", (), (("SYMBOL", ("dlp", BOOL), ()), y, z))))]
         for op in ("LE", "LT", "EQUALS"):
             for l in sides:
                 for r in sides:
